@@ -200,6 +200,33 @@ CHECKS = {
         technique="TLA+ spec (Writer.tla) model-checked with TLC over all fault points + fault-point enumeration on the real code "
                   "validated by TLC (TraceWriter.tla)",
     ),
+    "C18": dict(
+        category="model_checking",
+        text=("Merge.tla: MergeAbs (what the merged file must hold) vs MergeImpl (the tool's two passes with the name-keyed index "
+              "map) for all tuples of up to three inputs from six kinds (ok with 1-2 sets, version mismatch, unopenable, truncated, "
+              "empty-block-only, same file twice); the pinned pass-2 behaviour is a seeded self-test. Real cdns-merge runs on tuples "
+              "of real exporter files (differing parameter sets, tick rates, hints, versions; truncated anywhere; missing, garbage, "
+              "empty files; a file listed twice): TLC parses all inputs and the output independently and compares block by block "
+              "(records, statistics, parameter equality), and checks the stdout of cdns-itemcount for all four option combinations "
+              "against the counts of the independent parse."),
+        design_ref="DESIGN.md section 3 / C18",
+        note=TRUST + "python orchestration (argument lists, stdout capture); tuples are sampled (seeded).",
+        technique="TLA+ spec (Merge.tla) model-checked with TLC + TLC validation of real tool runs via the TLA+ RFC 8618 interpreter "
+                  "(TraceMerge.tla)",
+    ),
+    "C20": dict(
+        category="exploration",
+        text=("Threads.tla: every interleaving of N threads working on their own instances preserves each thread's sequential "
+              "result; a shared static scratch buffer (seeded deviation) is found by TLC. Binding: 2..16 real threads, each with "
+              "its own exporter/reader/renderers on distinct outputs (file-name and descriptor, three compression modes), run "
+              "concurrently; every per-thread trace is validated by TLC with the same TraceExporter specification used for "
+              "sequential runs, so any deviation from the sequential semantics (wrong bytes, records, counters) is a violation; "
+              "the same driver runs under ThreadSanitizer, whose race report truncates the traces and is recorded as a violation."),
+        design_ref="DESIGN.md section 3 / C20",
+        note=TRUST + "ThreadSanitizer; schedules are those the OS produced (sampled, with injected yields), not enumerated.",
+        technique="TLA+ spec (Threads.tla) model-checked with TLC; per-thread traces of concurrent runs validated with "
+                  "TraceExporter.tla; ThreadSanitizer as race instrument",
+    ),
 }
 
 PENDING_REASON = "check not built yet in this revision (specification in progress); see DESIGN.md"
